@@ -26,6 +26,7 @@ mod c18;
 mod c19;
 mod c16;
 mod c20;
+mod datax;
 mod enc;
 mod out;
 mod redisx;
